@@ -7,6 +7,7 @@ leaves gap sizes that differ by at most one — for every number of gaps and eve
 import RosedVerif.Model.JustifyLemmas
 import RosedVerif.Model.InstAFacts
 import RosedVerif.Model.AlignRefine
+import RosedVerif.Model.BridgeAlignCRLF
 namespace RosedVerif.Props
 open RosedVerif
 
@@ -49,5 +50,25 @@ theorem C12_total (text : List Int) (w : Int) : ∃ r, justifyLine cxA text w = 
 /-! non-vacuity: odd and even gap counts, deficit larger than the number of gaps -/
 example : distribute 3 1 5 0 false [0, 0, 0] = .ok [1, 2, 2] := rfl
 example : distribute 4 0 6 0 false [0, 0, 0, 0] = .ok [2, 1, 1, 2] := rfl
+
+/-- **bridge to code points**: on a stable vocabulary (space included, no U+0020 hidden inside a
+cluster; CR LF clusters allowed) the model of JustifyLine on CODE POINTS with the real segmentation
+returns normally, and the clusters of its output satisfy the per-line statement `JustifyPost`
+(unchanged when too long or gap-less, otherwise exactly `w` clusters wide, same words, gaps
+differing by at most one) with respect to the space-collapsed clusters of the input. -/
+theorem C12_code_points {V : List (List Int)} (hV : VocabStable V = true) (hsp : [0x20] ∈ V)
+    (hspTail : ∀ t ∈ V, (0x20 : Int) ∉ t.tail) (toks : List (List Int)) (ht : ∀ t ∈ toks, t ∈ V)
+    (w : Int) :
+    ∃ out, justifyLine cxA toks.flatten w = .ok out ∧
+      JustifyPost cxB (Spec.collapse ⟨cxB.isSpace, cxB.sp, cxB.hy⟩ toks) w (clusters cxA out) :=
+  justifyLine_bridge_general_post hV hsp hspTail toks ht w
+
+/-- the side condition is needed (Prepend + space is one cluster hiding a U+0020) -/
+theorem C12_code_points_needs_spTail :
+    VocabStable [[0x61], [0x20], [0x600, 0x20]] = true ∧
+    justifyLine cxA ([[0x600, 0x20], [0x20], [0x61]] : List (List Int)).flatten 0 =
+      .ok [0x600, 0x20, 0x61] ∧
+    justifyLine cxB [[0x600, 0x20], [0x20], [0x61]] 0 = .ok [[0x600, 0x20], [0x20], [0x61]] :=
+  BridgeAlignCRLF.spTail_needed_justify
 
 end RosedVerif.Props
